@@ -136,7 +136,7 @@ Print Assumptions C16_model_ok.
 
 (* a reachable world with three delegations on two validators, accrued rewards and two pending unbondings *)
 Definition ex16_su : setup :=
-  mkSetup 100 100000000000000000 [(1, 100000000000000000); (2, 200000000000000000)] [(1, 1000); (2, 1000)] [1; 2] 1571797419879305533.
+  mkSetup 100 100000000000000000 [(1, 100000000000000000); (2, 200000000000000000)] [(1, 1000); (2, 1000)] [1; 2] 1571797419879305533 USTAKE XDEN.
 Definition ex16_ops : list op :=
   [Delegate 1 1 150 true; Delegate 1 2 15 true; Delegate 2 1 70 true; Advance 31536000000000000;
    Undelegate 1 1 5 true; Undelegate 1 2 5 true].
@@ -179,7 +179,7 @@ Proof. split; vm_compute; reflexivity. Qed.
 (* the hypotheses of C16_model_ok: the example scenario with a fractional slash, payouts, a total slash *)
 Definition ex16_ops2 : list op :=
   ex16_ops ++ [Slash 1 ex16_p; Slash 2 0; Slash 1 (D18 + 1); Advance 100000000000; Slash 2 D18; Withdraw 1 1].
-Definition ex16_m0 : snap := Eval vm_compute in match model_snap ex16_su ex16_w0 with SOk m => m | _ => mkSnap [] [] [] [] 0 0 end.
+Definition ex16_m0 : snap := Eval vm_compute in match model_snap ex16_su ex16_w0 with SOk m => m | _ => mkSnap [] [] [] [] 0 0 [] [] end.
 Definition ex16_run2 : list (oc * snap * world) := Eval vm_compute in model_run ex16_su ex16_w0 ex16_m0 ex16_ops2.
 Example ex16_run2_eq : model_run ex16_su ex16_w0 ex16_m0 ex16_ops2 = ex16_run2. Proof. vm_compute. reflexivity. Qed.
 Example ex16_model_ok_hyps :
